@@ -10,6 +10,7 @@ mod songcases;
 mod predefcases;
 mod filtercases;
 mod typedcases;
+mod probecases;
 
 use std::io::{BufRead, Write};
 
@@ -48,6 +49,7 @@ fn dispatch(toks: &[&str]) -> String {
         "predef" => predefcases::run(toks),
         "filter" => filtercases::run(toks),
         "typed" | "typedlist" => typedcases::run(toks),
+        "probe" => probecases::run(toks),
         other => format!("unknown-kind {}", other),
     }
 }
